@@ -89,6 +89,10 @@ func (eval Evaluator) externalProduct32Bit(ct0 *rlwe.Ciphertext, rgsw *Ciphertex
 	subRing := ringQ.SubRings[0]
 	pw2 := rgsw.Value[0].BaseTwoDecomposition
 	mask := uint64(((1 << pw2) - 1))
+	if mask == 0 {
+		// BaseTwoDecomposition = 0: a single digit, the whole coefficient (as in the general path)
+		mask = 0xFFFFFFFFFFFFFFFF
+	}
 
 	cw := eval.BuffQP[0].Q.Coeffs[0]
 	cwNTT := eval.BuffBitDecomp
